@@ -85,7 +85,7 @@ def _leaf(interp, v, path):
 
 
 class MList(SList):
-    __slots__ = ('shape', 'arrs', 'base', 'version')
+    __slots__ = ('shape', 'arrs', 'base', 'version', 'is_deque')
 
     def __init__(self, interp, uid, shape, length=None, fresh=True):
         SList.__init__(self, length if length is not None else z3.IntVal(0), None, uid)
@@ -93,6 +93,7 @@ class MList(SList):
         self.arrs = {}
         self.base = z3.IntVal(0)
         self.version = 0
+        self.is_deque = False
         self.immutable = False
         self.elem = self._elem
         if shape is not None:
@@ -232,9 +233,12 @@ class MList(SList):
             if self.shape is None:
                 if isinstance(other, MList) and other.shape is not None:
                     self.shape = other.shape
-                    self._fresh_arrays(interp, self.uid)
                 else:
-                    raise Unsupported('extend of an empty list of unknown shape')
+                    # shape of a generic element of the other sequence
+                    probe = interp.st.fresh_int('k!shape')
+                    with interp.st.scope(z3.And(probe >= 0, probe < other.length)):
+                        self.shape = shape_of_value(models.slist_elem(interp, other, probe))
+                self._fresh_arrays(interp, self.uid)
             k = z3.Int('k!ext')
             n = self.length
             end = z3.simplify(self.base + n)
@@ -270,6 +274,7 @@ class MList(SList):
         c.shape = self.shape
         c.arrs = dict(self.arrs)
         c.base = self.base
+        c.is_deque = self.is_deque
         return c
 
 
@@ -280,6 +285,10 @@ def method(interp, xs, name, args, kwargs):
         return xs.insert(interp, args[0], args[1])
     if name == 'pop':
         return xs.pop(interp, *args)
+    if name == 'popleft' and xs.is_deque:
+        return xs.pop(interp, 0)
+    if name == 'appendleft' and xs.is_deque:
+        return xs.insert(interp, 0, args[0])
     if name == 'extend':
         return xs.extend(interp, args[0])
     if name == 'copy':
